@@ -3111,6 +3111,10 @@ func (c *Ctx) ruleLoops(reach map[*ssa.Function]bool) {
 				r.Ok("C01-LOOPS", key, why, where)
 				return true
 			}
+			if lb := balanceOfLoop(pk, f.Decl.Body, fs); lb != nil && lb.balanced() == "" {
+				r.Ok("C01-LOOPS", key, "index loop with removal: on every way round the loop the index goes up by one, or one element is removed at the index and the index stays, so len-index falls by one per round", where)
+				return true
+			}
 			if why, ok := loopWitnesses[f.Name()]; ok {
 				// structural sanity for the witness: an infinite `for {}` must contain a return
 				hasExit := false
